@@ -59,7 +59,14 @@ manifest = dict(
     not_applicable=not_applicable,
     notes="Every check: ./check <ID> --tier quick|thorough, honours VERIF_SEED, VERIF_TIER, "
           "VERIF_REPO (default /repo), VERIF_JOBS. Exit 0 held / 1 VIOLATION / 2 harness "
-          "error. Known findings: known_findings.json (read-only at run time).")
+          "error. Known findings: known_findings.json (read-only at run time). Order of work "
+          "in every check: committed replays (replays/<ID>/*.json: repaired defects, shrunk "
+          "cases of seeded changes, corrected false alarms), known findings, the generated "
+          "campaign sharded over 16 Hypothesis runs seeded from VERIF_SEED, the enumerated "
+          "parts (complete small spaces; for run-time checks a size ladder of flat schedulers "
+          "of 9..1025 members and, for C04/C08, a time ladder), then the deterministic part "
+          "again under `python -O`. DESIGN.md section 9 and seeded/HISTORY.md record which of "
+          "the 100 seeded changes each check reports.")
 with open(os.path.join(HERE, 'MANIFEST.json'), 'w') as f:
     json.dump(manifest, f, indent=1)
     f.write("\n")
